@@ -159,8 +159,15 @@ class Check:
                         samples.append({'docs': c['docs'], 'strict': c['strict'], 'warnings': list(a[1])})
         finally:
             shutil.rmtree(tmp, ignore_errors=True)
+        # translator tie: exc.py's hierarchy and the except clause of MosCollection.merge against is_merge_error
+        import gentables
+        gt = gentables.run(impl.REPO)
+        if not gt['ok']:
+            dis.append({'case': {'kind': 'translator', 'stage': gt['stage'], 'detail': gt['detail']},
+                        'impl': 'exception hierarchy / except clause of MosCollection.merge', 'model': 'is_merge_error (work/GenTables.v does not check)',
+                        'explained': bool(vio)})
         return {'evaluations': n, 'distinct': len(sigs), 'rule': self.rule, 'samples': samples, 'distribution': dist,
-                'disagreements': dis, 'violations': vio, 'extra': {'sequences': len(seqs)}}
+                'disagreements': dis, 'violations': vio, 'extra': {'sequences': len(seqs), 'translated_tables': gt}}
 
     def second_merge(self, c, io1, tmp):
         """merge() called again on the same collection: the same as merging the same messages into the state the
